@@ -1,11 +1,11 @@
 """Fault and crash injection for the storage accessors, from outside.
 
 Wraps builtins.open / io.open (this also covers gzip.open and
-pathlib.Path.open), os.makedirs, pathlib.Path.is_file / exists / mkdir while
-active.  Calls that concern paths under ``root`` are numbered as the
+pathlib.Path.open), os.makedirs, pathlib.Path.is_file / exists / mkdir /
+unlink and os.unlink / os.remove while active.  Calls that concern paths under ``root`` are numbered as the
 primitive calls of the Coq model (StFS.call):
 
-    ("isfile", path) ("exists", path) ("makedirs", path)
+    ("isfile", path) ("exists", path) ("makedirs", path) ("unlink", path)
     ("open", path, mode)  ("write", path)  ("read", path)  ("close", path)
 
 All writes (resp. reads) on one handle form ONE event, numbered at the first
@@ -122,8 +122,9 @@ class FaultFS:
     def __enter__(self):
         ffs = self
         self._saved = (builtins.open, io.open, os.makedirs, pathlib.Path.is_file, pathlib.Path.exists,
-                       pathlib.Path.mkdir)
-        real_open, _, real_makedirs, real_is_file, real_exists, real_mkdir = self._saved
+                       pathlib.Path.mkdir, pathlib.Path.unlink, os.unlink, os.remove)
+        (real_open, _, real_makedirs, real_is_file, real_exists, real_mkdir, real_punlink, real_unlink,
+         real_remove) = self._saved
 
         def f_open(file, mode="r", *a, **k):
             if isinstance(file, int) or not ffs.inside(file):
@@ -166,6 +167,28 @@ class FaultFS:
             finally:
                 ffs._depth -= 1
 
+        def f_punlink(self_, *a, **k):
+            # pathlib.Path.unlink calls os.unlink: count the outermost call only
+            if not ffs.inside(self_) or ffs._depth:
+                return real_punlink(self_, *a, **k)
+            ffs.event(("unlink", os.path.abspath(str(self_))))
+            ffs._depth += 1
+            try:
+                return real_punlink(self_, *a, **k)
+            finally:
+                ffs._depth -= 1
+
+        def make_unlink(real):
+            def f_unlink(path, *a, **k):
+                if isinstance(path, int) or not ffs.inside(path) or ffs._depth:
+                    return real(path, *a, **k)
+                ffs.event(("unlink", os.path.abspath(os.fspath(path))))
+                return real(path, *a, **k)
+            return f_unlink
+
+        pathlib.Path.unlink = f_punlink
+        os.unlink = make_unlink(real_unlink)
+        os.remove = make_unlink(real_remove)
         builtins.open = f_open
         io.open = f_open
         os.makedirs = f_makedirs
@@ -176,7 +199,7 @@ class FaultFS:
 
     def __exit__(self, *a):
         (builtins.open, io.open, os.makedirs, pathlib.Path.is_file, pathlib.Path.exists,
-         pathlib.Path.mkdir) = self._saved
+         pathlib.Path.mkdir, pathlib.Path.unlink, os.unlink, os.remove) = self._saved
         self.dead = True          # handles still alive are closed quietly by the collector
         gc.collect()
         return False
